@@ -347,29 +347,49 @@ def disk_attrs(pid, fam, work):
             except OSError:
                 open(p, 'wb').write(c_['data'])
         expect[p] = (c_, mode)
+    # large files walked first (what a per-file time or size budget would cut off), so that family files follow them on
+    # the same workers
+    filler = ('class Big%d {\n' + ''.join('  int f%d = %d + 1;\n' % (k, k) for k in range(4000)) + '}\n')
+    for k in range(5):
+        os.makedirs(root + '/0big', exist_ok=True)
+        open('%s/0big/Big%d.java' % (root, k), 'w').write(filler % k)
     out = work + '/diskattrs_dump.txt'
-    rc, so, se = run([B + '/harness', 'init-dump', root, out], timeout=900, env=dict(ENV, HOME=work))
-    if rc != 0:
-        return stats, [dict(what='graph.Initialize failed on the family written to disk: ' + se.decode(errors='replace')[-200:], case=None, detail=[])]
-    by = {}
-    for line in open(out):
-        if line.startswith('NODE '):
-            n = scan.parse_kv(line.rstrip('\n'))
-            by.setdefault(scan.unhx(n['file']).decode('utf-8', 'surrogateescape'), []).append(n)
-    for p, (c_, mode) in expect.items():
-        rec = dict(case=c_, impl_nodes=by.get(p, []))
-        stats['disk_attr_files'] += 1
-        stats['disk_attr_entities'] += len(rec['impl_nodes'])
-        if pid == 'C05':
-            b_, _, _ = oracle_decl_attrs(rec)
-            # a declaration of the source that is not reported at all cannot mirror it either
-            idx = index_nodes(rec)
-            b_ = b_ + [('%s-missing' % t['kind'], t['line'], t.get('name')) for t in c_.get('truth', []) if t['kind'] in ('class', 'method')
-                       and not find(idx, 'class_declaration' if t['kind'] == 'class' else 'method_declaration', t)][:2]
-        else:
-            b_, known, _ = oracle_expr_attrs(rec)
-        if b_:
-            bad.append(dict(what='attributes reported for a file read from disk (%s) differ from its source' % mode, case=c_, detail=b_[:3]))
+    # default environment, then every variable the sources read (the general matrix is applied in the C03 census and the C04/C09 disk stage)
+    for ov in [('default', {}, None)] + [o for o in ENV_MATRIX if 'a variable the sources read' in o[0]]:
+        rc, so, se = run_env([B + '/harness', 'init-dump', root, out], ov, timeout=900, base=dict(ENV, HOME=work))
+        stats['disk_attr_environments'] += 1
+        if rc != 0:
+            bad.append(dict(what='graph.Initialize failed on the family written to disk (%s): %s' % (ov[0], se.decode(errors='replace')[-200:]), case=None, detail=[]))
+            break
+        by = {}
+        for line in open(out):
+            if line.startswith('NODE '):
+                n = scan.parse_kv(line.rstrip('\n'))
+                by.setdefault(scan.unhx(n['file']).decode('utf-8', 'surrogateescape'), []).append(n)
+        nbad = len(bad)
+        for p, (c_, mode) in expect.items():
+            rec = dict(case=c_, impl_nodes=by.get(p, []))
+            stats['disk_attr_files'] += 1
+            stats['disk_attr_entities'] += len(rec['impl_nodes'])
+            if pid == 'C05':
+                b_, _, _ = oracle_decl_attrs(rec)
+                # a declaration of the source that is not reported at all cannot mirror it either
+                idx = index_nodes(rec)
+                b_ = b_ + [('%s-missing' % t['kind'], t['line'], t.get('name')) for t in c_.get('truth', []) if t['kind'] in ('class', 'method')
+                           and not find(idx, 'class_declaration' if t['kind'] == 'class' else 'method_declaration', t)][:2]
+                # ... and what IS reported for the file must be one of its declarations
+                names = set(t.get('name') for t in c_.get('truth', []) if t['kind'] in ('class', 'method'))
+                alien = [(scan.unhx(n['type']).decode(), scan.unhx(n['name']).decode('utf-8', 'replace')) for n in rec['impl_nodes']
+                         if scan.unhx(n['type']).decode() in ('class_declaration', 'method_declaration') and scan.unhx(n['name']).decode('utf-8', 'replace') not in names]
+                if alien and names:
+                    b_ = b_ + [('declaration-not-in-source',) + alien[0]]
+            else:
+                b_, known, _ = oracle_expr_attrs(rec)
+            if b_:
+                bad.append(dict(what='attributes reported for a file read from disk (%s; environment: %s) differ from its source' % (mode, ov[0]), case=c_, detail=b_[:3] + [dict(environment=ov[1], open_files=ov[2])]))
+                break
+        if len(bad) > nbad:
+            break
     return stats, bad
 
 
